@@ -295,6 +295,23 @@ pub fn type_family(rng: &mut Rng, thorough: bool) -> Vec<(&'static str, Blk)> {
             ret(vec![bin(0, Ex::Cast(bx(a.clone()), ty.clone()), Ex::Cast(bx(a.clone()), ty.clone())), Ex::Table(vec![Entry::Val(Ex::Cast(bx(a.clone()), ty.clone()))])]),
             stmts(vec![St::Local(vec!["v".into()], vec![Ex::Cast(bx(a.clone()), ty.clone())]), St::CallSt(call(paren(a.clone()), vec![]))]),
             stmts(vec![St::If(vec![(Ex::Cast(bx(a.clone()), ty.clone()), Blk::default())], None)]),
+            stmts(vec![St::NForT("i".into(), ty.clone(), num(1.0), a.clone(), None, Blk::default())]),
+            stmts(vec![St::GForT(vec![("k".into(), Some(ty.clone())), ("v".into(), None)], vec![a.clone()], Blk::default()), St::GForT(vec![("k".into(), None), ("v".into(), Some(ty.clone()))], vec![a.clone(), a.clone()], Blk::default())]),
+            stmts(vec![St::TypeDecl(false, "X".into(), vec![Generic::Var("A".into()), Generic::PackDefault("P".into(), PackDefault::Var(TyVar::Variadic(ty.clone()))), Generic::PackDefault("Q".into(), PackDefault::Pack(TyPack { types: vec![ty.clone(), ty.clone()], variadic: None })), Generic::PackDefault("R".into(), PackDefault::Var(TyVar::Generic("P".into())))], ty.clone())]),
+            stmts(vec![St::TypeDecl(false, "X".into(), vec![], Ty::Table(vec![TyEntry::Mod(true, Box::new(TyEntry::Prop("a".into(), ty.clone()))), TyEntry::Mod(false, Box::new(TyEntry::Literal(b"k".to_vec(), ty.clone()))), TyEntry::Mod(true, Box::new(TyEntry::Indexer(tname("string"), ty.clone())))]))]),
+            ret(vec![Ex::Inst(bx(a.clone()), vec![ty.clone(), ty.clone()])]),
+            stmts(vec![St::Local(vec!["v".into()], vec![Ex::Inst(bx(a.clone()), vec![ty.clone()])]), St::CallSt(call(paren(a.clone()), vec![]))]),
+            stmts(vec![St::CallSt(Ex::MethodInst(bx(a.clone()), "m".into(), vec![ty.clone()], Args::Tuple(vec![]))), St::CallSt(call(Ex::Inst(bx(a.clone()), vec![ty.clone()]), vec![a.clone()]))]),
+            stmts(vec![St::TypeFunction(
+                true,
+                "tf".into(),
+                Func {
+                    params: vec!["p".into()],
+                    variadic: false,
+                    body: ret(vec![id("p")]),
+                    sig: Some(Box::new(Sig { generics: vec![], param_types: vec![Some(ty.clone())], variadic_type: None, ret: Some(TyRet::Ty(ty.clone())), attrs: vec![] })),
+                },
+            ), St::TypeFunction(false, "tg".into(), Func { params: vec![], variadic: true, body: Blk::default(), sig: None })]),
             stmts(vec![St::LocalFn(
                 "f".into(),
                 Func {
@@ -306,6 +323,7 @@ pub fn type_family(rng: &mut Rng, thorough: bool) -> Vec<(&'static str, Blk)> {
                         param_types: vec![Some(ty.clone()), None],
                         variadic_type: Some(TyVar::Variadic(ty.clone())),
                         ret: Some(TyRet::Ty(ty.clone())),
+                        attrs: vec!["native".into()],
                     })),
                 },
             )]),
@@ -313,7 +331,7 @@ pub fn type_family(rng: &mut Rng, thorough: bool) -> Vec<(&'static str, Blk)> {
                 params: vec!["p".into()],
                 variadic: false,
                 body: ret(vec![id("p")]),
-                sig: Some(Box::new(Sig { generics: vec![], param_types: vec![Some(ty.clone())], variadic_type: None, ret: Some(TyRet::Pack(TyPack { types: vec![ty.clone(), ty.clone()], variadic: None })) })),
+                sig: Some(Box::new(Sig { generics: vec![], param_types: vec![Some(ty.clone())], variadic_type: None, ret: Some(TyRet::Pack(TyPack { types: vec![ty.clone(), ty.clone()], variadic: None })), attrs: vec![] })),
             }))]),
             stmts(vec![St::Function(
                 vec!["m".into(), "n".into()],
@@ -322,7 +340,7 @@ pub fn type_family(rng: &mut Rng, thorough: bool) -> Vec<(&'static str, Blk)> {
                     params: vec![],
                     variadic: true,
                     body: Blk::default(),
-                    sig: Some(Box::new(Sig { generics: vec![Generic::Pack("P".into())], param_types: vec![], variadic_type: Some(TyVar::Generic("P".into())), ret: Some(TyRet::Var(TyVar::Generic("P".into()))) })),
+                    sig: Some(Box::new(Sig { generics: vec![Generic::Pack("P".into())], param_types: vec![], variadic_type: Some(TyVar::Generic("P".into())), ret: Some(TyRet::Var(TyVar::Generic("P".into()))), attrs: vec![] })),
                 },
             )]),
         ]
@@ -474,6 +492,7 @@ pub fn enumerated(thorough: bool, rng: &mut Rng) -> Vec<(&'static str, Blk)> {
         St::Assign(vec![Ex::Index(bx(call(paren(a.clone()), vec![])), bx(num(1.0))), b.clone()], vec![num(1.0), num(2.0)]),
         St::Compound(0, Ex::Index(bx(paren(a.clone())), bx(num(1.0))), num(1.0)),
     ];
+    let inst = Ex::Inst(bx(a.clone()), vec![tname("T")]);
     let value_ends: Vec<Ex> = vec![
         a.clone(),
         call(a.clone(), vec![]),
@@ -495,6 +514,20 @@ pub fn enumerated(thorough: bool, rng: &mut Rng) -> Vec<(&'static str, Blk)> {
         Ex::Varargs,
         Ex::Cast(bx(a.clone()), tname("T")),
         bin(CONCAT, a.clone(), Ex::Cast(bx(b.clone()), tname("T"))),
+        // Luau prefix expressions and units of round 3
+        inst.clone(),
+        Ex::Inst(bx(Ex::Field(bx(a.clone()), "x".into())), vec![tname("T"), Ty::Table(vec![TyEntry::Prop("k".into(), tname("U"))])]),
+        bin(8, num(1.0), inst.clone()),
+        un(1, inst.clone()),
+        un(2, bin(CONCAT, a.clone(), inst.clone())),
+        Ex::IfExp(bx(a.clone()), bx(num(1.0)), vec![], bx(inst.clone())),
+        Ex::Call(bx(inst.clone()), None, Args::Tuple(vec![])),
+        Ex::MethodInst(bx(a.clone()), "m".into(), vec![tname("T")], Args::Tuple(vec![num(1.0)])),
+        Ex::Interp(vec![Seg::Str(b"x".to_vec()), Seg::Val(a.clone())]),
+        Ex::Interp(vec![Seg::Val(paren(a.clone()))]),
+        Ex::Cast(bx(a.clone()), Ty::TypeOf(bx(b.clone()))),
+        Ex::Cast(bx(a.clone()), Ty::Func(vec![], vec![], None, Box::new(TyRet::Pack(TyPack { types: vec![], variadic: None })))),
+        Ex::Cast(bx(a.clone()), Ty::Name("G".into(), vec![TyArg::Ty(tname("T"))])),
     ];
     let mut firsts: Vec<St> = Vec::new();
     for v in &value_ends {
@@ -563,6 +596,17 @@ pub fn enumerated(thorough: bool, rng: &mut Rng) -> Vec<(&'static str, Blk)> {
         k.push(paren(Ex::Varargs));
         k.push(Ex::Cast(bx(bin(8, a.clone(), b.clone())), tname("T")));
         k.push(Ex::Cast(bx(Ex::Cast(bx(a.clone()), tname("T"))), tname("U")));
+        k.push(Ex::Inst(bx(call(a.clone(), vec![])), vec![tname("T"), tname("U")]));
+        k.push(Ex::Inst(bx(paren(a.clone())), vec![Ty::Name("G".into(), vec![TyArg::Ty(Ty::Name("H".into(), vec![TyArg::Ty(tname("T"))]))])]));
+        k.push(Ex::Index(bx(inst.clone()), bx(num(1.0))));
+        k.push(Ex::Field(bx(inst.clone()), "x".into()));
+        k.push(Ex::Call(bx(inst.clone()), Some("m".into()), Args::Str(b"s".to_vec())));
+        k.push(Ex::MethodInst(bx(inst.clone()), "m".into(), vec![tname("T"), tname("U")], Args::Table(vec![])));
+        k.push(Ex::Interp(vec![]));
+        k.push(Ex::Interp(vec![Seg::Str(b"plain `{\\ \n text".to_vec())]));
+        k.push(Ex::Interp(vec![Seg::Val(Ex::Table(vec![Entry::Val(a.clone())])), Seg::Str(b" }".to_vec()), Seg::Val(Ex::Interp(vec![Seg::Val(b.clone())]))]));
+        k.push(Ex::Interp(vec![Seg::Str(vec![0xff, b'1']), Seg::Val(bin(CONCAT, a.clone(), Ex::Str(b"}".to_vec()))), Seg::Str("é".as_bytes().to_vec())]));
+        k.push(Ex::Interp(vec![Seg::Val(Ex::Func(Box::new(Func { params: vec![], variadic: false, body: ret(vec![Ex::Table(vec![])]), sig: None })))]));
         k.push(Ex::IfExp(bx(a.clone()), bx(Ex::IfExp(bx(b.clone()), bx(num(1.0)), vec![], bx(num(2.0)))), vec![], bx(Ex::IfExp(bx(c.clone()), bx(num(3.0)), vec![], bx(num(4.0))))));
         k
     };
@@ -621,6 +665,14 @@ impl Gen {
             Ex::Num(self.numbers[i].clone())
         }
     }
+    fn interp(&mut self, d: usize) -> Ex {
+        let n = self.rng.below(4);
+        Ex::Interp(
+            (0..n)
+                .map(|_| if self.rng.chance(1, 2) { Seg::Str(self.string()) } else { Seg::Val(self.expr(d)) })
+                .collect(),
+        )
+    }
     fn leaf(&mut self) -> Ex {
         match self.rng.below(10) {
             0 => Ex::Nil,
@@ -641,6 +693,11 @@ impl Gen {
             2 => paren(self.expr(d - 1)),
             3 => Ex::Field(bx(self.prefix(d - 1)), self.field_name()),
             4 => Ex::Index(bx(self.prefix(d - 1)), bx(self.expr(d - 1))),
+            5 if self.casts => {
+                let n = 1 + self.rng.below(2);
+                let p = self.prefix(d - 1);
+                Ex::Inst(bx(p), (0..n).map(|_| gen_ty(&mut self.rng, 1)).collect())
+            }
             _ => self.call(d),
         }
     }
@@ -666,6 +723,11 @@ impl Gen {
                 Args::Tuple((0..n).map(|_| self.expr(d1)).collect())
             }
         };
+        if self.casts && method.is_some() && self.rng.chance(1, 4) {
+            let n = 1 + self.rng.below(2);
+            let types = (0..n).map(|_| gen_ty(&mut self.rng, 1)).collect();
+            return Ex::MethodInst(bx(p), method.unwrap(), types, args);
+        }
         Ex::Call(bx(p), method, args)
     }
     fn func(&mut self, d: usize) -> Func {
@@ -689,6 +751,7 @@ impl Gen {
                 param_types: (0..n).map(|_| if self.rng.chance(2, 3) { Some(gen_ty(&mut self.rng, 2)) } else { None }).collect(),
                 variadic_type: if f.variadic && self.rng.chance(1, 2) { Some(gen_var(&mut self.rng, 1)) } else { None },
                 ret: if self.rng.chance(2, 3) { Some(gen_ret(&mut self.rng, 2)) } else { None },
+                attrs: (0..self.rng.below(3).saturating_sub(1) + self.rng.below(2)).map(|_| (*self.rng.pick(&["native", "checked", "a1"])).to_owned()).collect(),
             };
             if !sig.is_empty() {
                 f.sig = Some(Box::new(sig));
@@ -715,6 +778,7 @@ impl Gen {
             12 => Ex::Field(bx(self.prefix(d1)), self.field_name()),
             13 => Ex::Index(bx(self.prefix(d1)), bx(self.expr(d1))),
             14 | 15 => self.call(d),
+            16 if self.casts && self.rng.chance(1, 3) => self.interp(d1),
             16 => Ex::Table(self.entries(d1)),
             17 => Ex::Func(Box::new(self.func(d1.min(1)))),
             18 => {
@@ -758,17 +822,45 @@ impl Gen {
         let e = 2.min(d + 1);
         let kinds = if d == 0 { 4 } else { 12 };
         if self.casts && self.rng.chance(1, 10) {
-            return if self.rng.chance(1, 2) {
+            let choice = self.rng.below(5);
+            if choice == 2 {
+                let saved = std::mem::replace(&mut self.in_loop, false);
+                let mut f = self.func(d1);
+                // a type function takes no attribute
+                if let Some(sig) = f.sig.as_mut() {
+                    sig.attrs.clear();
+                }
+                if f.sig.as_ref().map_or(false, |s| s.is_empty()) {
+                    f.sig = None;
+                }
+                self.in_loop = saved;
+                return St::TypeFunction(self.rng.chance(1, 3), (*self.rng.pick(&["tf", "F1", "_t"])).to_owned(), f);
+            }
+            if choice == 3 {
+                let n = 1 + self.rng.below(2);
+                let names = (0..n).map(|_| (self.name(), if self.rng.chance(2, 3) { Some(gen_ty(&mut self.rng, 1)) } else { None })).collect();
+                return St::GForT(names, self.exprs(e, 1, 2), self.loop_block(d1));
+            }
+            if choice == 4 {
+                let step = if self.rng.chance(1, 2) { Some(self.expr(e)) } else { None };
+                return St::NForT(self.name(), gen_ty(&mut self.rng, 1), self.expr(e), self.expr(e), step, self.loop_block(d1));
+            }
+            return if choice == 0 {
                 let n = 1 + self.rng.below(3);
                 let names = (0..n)
                     .map(|_| (self.name(), if self.rng.chance(2, 3) { Some(gen_ty(&mut self.rng, 2)) } else { None }))
                     .collect();
                 St::LocalT(names, self.exprs(e, 0, 2))
             } else {
-                let generics = match self.rng.below(5) {
+                let generics = match self.rng.below(7) {
                     0 => vec![Generic::Var("A".into())],
                     1 => vec![Generic::Var("A".into()), Generic::VarDefault("B".into(), gen_ty(&mut self.rng, 1))],
                     2 => vec![Generic::Var("A".into()), Generic::Pack("P".into())],
+                    3 => vec![Generic::Var("A".into()), Generic::PackDefault("P".into(), PackDefault::Var(gen_var(&mut self.rng, 1)))],
+                    4 => vec![
+                        Generic::VarDefault("B".into(), gen_ty(&mut self.rng, 1)),
+                        Generic::PackDefault("P".into(), PackDefault::Pack(TyPack { types: vec![gen_ty(&mut self.rng, 1), gen_ty(&mut self.rng, 1)], variadic: None })),
+                    ],
                     _ => vec![],
                 };
                 St::TypeDecl(self.rng.chance(1, 3), (*self.rng.pick(&["T", "Foo", "e1", "_K"])).to_owned(), generics, gen_ty(&mut self.rng, 3))
